@@ -35,7 +35,9 @@ def lines_lit(lines):
 POOL = ["a", " b", "  c", "", "  ", "!x", " !y", "banner motd ^", "banner login #", "banner exec ^C", "banner motd ^ hi ^", "^", "#", "^C",
         "text ^ more", "macro name m1", "@", " @", "set banner motd ^", "aaa authentication fail-message ^", "banner foo ^", " banner motd ^",
         "banner  motd ^", "banner motd", "@ ", "x{y}", " a+b (c", "déjà", "\tt", " n", "macro name", "macro name  z", "banner lcd %", "%",
-        " ", "   d", "interface Gi0/1", " ip address 1.1.1.1 255.0.0.0"]
+        " ", "   d", "interface Gi0/1", " ip address 1.1.1.1 255.0.0.0",
+        # doubled braces are ordinary text too (templates, Tcl bodies, regex repetitions written twice)
+        "a{{b}}", " x }}", "{{", "description {{ site }}-{1}"]
 
 
 # lines that the typed-model factories (models_*.py is_object_for) claim, decorated with braces / odd characters:
